@@ -206,6 +206,35 @@ def run(ctx):
     res = ctx.cvh_run(cases)
     for c in cases:
         check_subtree_case(ctx, c, res.get(c["id"]))
+    # the destination side of a subtree restore: Dest.restore_into on the subtree's listing vs what restore left there
+    from .. import destmodel, scen
+    rows, meta = [], []
+    for c in cases:
+        r = res.get(c["id"])
+        if r is None:
+            continue
+        lists = {sub: rs for (kind, sub), rs in zip(c["kinds"], r[5:]) if kind == "list"}
+        content = scen.tree_file_bytes(c["tree"])
+        for (kind, sub), rs in zip(c["kinds"], r[5:]):
+            if kind != "restore" or rs.get("result") != "ok" or not rs.get("tree") or lists.get(sub, {}).get("result") != "ok":
+                continue
+            if quick and len(rows) >= 80:
+                break
+            rows.append(destmodel.row(False, None, lists[sub]["value"], content, rs["tree"], len(rs.get("monitor_errors") or []), False, sub == "/"))
+            meta.append((c, sub))
+    if rows:
+        nums, txt = destmodel.evaluate("C12_dest", rows)
+        if nums is None:
+            ctx.corr_fail("L2", "Dest.restore_into evaluation failed: " + txt, {})
+        else:
+            ok_n = 0
+            for (c, sub), code in zip(meta, nums):
+                if code == 0:
+                    ok_n += 1
+                else:
+                    ctx.corr_fail("L2", f"Dest.restore_into and restore differ for the subtree {sub!r} (code {code}: {destmodel.CODES})",
+                                  {"case": {"tree": c["tree"], "opts": c["opts"]}, "subtree": sub})
+            ctx.layer("L2-destination-subtree", ok_n, len(meta))
     icases = incomplete_cases(ctx, 3 if quick else 40)
     ires = ctx.cvh_run(icases)
     for c in icases:
